@@ -106,8 +106,8 @@ def build(scn, P, E):
         t = core.Tensor(arr, name=name)
         if isinstance(tf, int) and tf < 0:
             return t
-        if tmode == 1:
-            return _MaybePartial(t, tf, idx)   # the selected index fails after half of its bytes
+        if tmode in (1, 2):
+            return _MaybePartial(t, tf, idx, SystemExit if tmode == 2 else RuntimeError)   # the selected index fails after half of its bytes
 
         def fn(t=t, idx=idx):
             if tf == idx:
@@ -134,6 +134,9 @@ def build(scn, P, E):
         fs.put(dest, b"OLD-FOREIGN-CONTENT", mode=0o600)
         fs.put("/m/other.bin", b"UNRELATED")
         tensors = [mem("a", 0), mem("b", 1), mem("c", 2)]
+    elif scn == "readonly":       # destination exists and is read-only (mode 0o444)
+        fs.put(dest, b"OLD-READ-ONLY-CONTENT", mode=0o444)
+        tensors = [mem("a", 0), mem("b", 1)]
     elif scn == "own":            # re-save onto the model's own data file: a, c external in it (c listed first on disk), b in memory
         blob = b"PAD" + payload["c"] + payload["a"] + b"TAIL"
         fs.put(dest, blob)
@@ -178,8 +181,8 @@ def build(scn, P, E):
 class _MaybePartial:
     """in-memory tensor whose tofile() - for the selected index - writes half of its bytes and then raises"""
 
-    def __init__(self, real, tf, idx):
-        self._real, self._tf, self._idx = real, tf, idx
+    def __init__(self, real, tf, idx, exc=RuntimeError):
+        self._real, self._tf, self._idx, self._exc = real, tf, idx, exc
         self.name, self.dtype, self.shape, self.nbytes, self.size = real.name, real.dtype, real.shape, real.nbytes, real.size
 
     def tobytes(self):
@@ -192,12 +195,12 @@ class _MaybePartial:
         if self._tf == self._idx:
             b = self._real.tobytes()
             file.write(b[: (len(b) + 1) // 2])
-            raise RuntimeError(f"tensor {self.name} failed after writing half of its bytes")
+            raise self._exc(f"tensor {self.name} failed after writing half of its bytes")
         file.write(self._real.tobytes())
 
 
-SCENARIOS = ["fresh", "foreign", "own", "own+other", "symlink", "hardlink", "sharded", "sharded-collision"]
-FAULTS = ["none", "fs", "tensor-before", "tensor-mid", "callback"]
+SCENARIOS = ["fresh", "foreign", "readonly", "own", "own+other", "symlink", "hardlink", "sharded", "sharded-collision"]
+FAULTS = ["none", "fs", "tensor-before", "tensor-mid", "callback", "callback-interrupt", "tensor-exit"]
 
 
 TMAX = 40
@@ -212,9 +215,9 @@ def make_case(tier, key):
             ranges[f"s{t}"] = (0, 7)
     if fault == "fs":
         ranges["fa"] = (0, 60)
-    if fault in ("tensor-before", "tensor-mid"):
+    if fault in ("tensor-before", "tensor-mid", "tensor-exit"):
         ranges["tf"] = (0, 3)
-    if fault == "callback":
+    if fault in ("callback", "callback-interrupt"):
         ranges["cf"] = (0, 3)
     if "sharded" in scn:
         ranges["M"] = (1, 20)
@@ -241,6 +244,8 @@ def run_scenario(scn, fault, P):
         Q["tmode"] = 0
     elif fault == "tensor-mid":
         Q["tmode"] = 1
+    elif fault == "tensor-exit":
+        Q["tmode"] = 2      # the tensor's tofile() raises SystemExit (a BaseException that is not an Exception) half way
     else:
         Q["tf"] = -1
     S = build(scn, Q, E)
@@ -291,8 +296,8 @@ def run_scenario(scn, fault, P):
 
     def callback(tensor, info):
         cb_calls.append(operator.index(info.index))
-        if fault == "callback" and P["cf"] == len(cb_calls) - 1:
-            raise RuntimeError("callback failed")
+        if fault in ("callback", "callback-interrupt") and P["cf"] == len(cb_calls) - 1:
+            raise (KeyboardInterrupt if fault == "callback-interrupt" else RuntimeError)("callback failed")
 
     raised = None
     counter = [0]
@@ -313,7 +318,7 @@ def run_scenario(scn, fault, P):
                 problem(f"deadlock: {e}")
         else:
             E.io.save(model, "/m/model.onnx", size_threshold_bytes=T, callback=callback, **kwargs)
-    except (OSError, RuntimeError, ValueError) as e:
+    except (OSError, RuntimeError, ValueError, KeyboardInterrupt, SystemExit) as e:
         raised = f"{type(e).__name__}"
         raised_msg = str(e)
     boundary(fs.n_effects, "end of save")
@@ -391,7 +396,7 @@ def run(chk, tier):
         "a write of n > 1 bytes is two effects (a process can die after a prefix); every effect is a crash boundary and a candidate for the injected OSError",
         "destination file objects expose no OS-level descriptor (fileno raises), so the portable write paths are taken; the descriptor fast paths (ndarray.tofile, copy_file_range) are C04's subject",
         "serde.serialize_model and onnx.save are stubs (the model file write is one more effect sequence on the same file system)",
-        "exactly one fault per run: one failing effect, or one raising tensor (before writing / after half of its bytes), or one raising callback",
+        "exactly one fault per run: one failing effect, or one raising tensor (before writing / after half of its bytes; RuntimeError or SystemExit), or one raising callback (RuntimeError or KeyboardInterrupt)",
         "every explored path is re-executed natively with the path's witness and must give the same observation",
     )
     chk.bounds = dict(scenarios=SCENARIOS + PAR_SCENARIOS, parallel="par:* scenarios run the same save with max_workers=2 on virtual threads (engine.vthreads), every schedule with <= 1 preemption", faults=FAULTS, tensors="3-4 initializers of 3..9 bytes (in-memory, lazy, external in the destination, external elsewhere)",
